@@ -36,10 +36,11 @@ def _lemma_fill_value(dst_nodata, src_nodata, dtype):
     r = m.resolve_fill_value(dst_nodata, src_nodata, dtype)
     dt = np.dtype(dtype)
     claim(type(r) is dt.type, "the fill value has the array's dtype")
+    same = lambda a, b: bool(a == b) or (bool(np.isnan(a)) and bool(np.isnan(b)))  # noqa: E731  (a NaN nodata is a nodata like any other)
     if dst_nodata is not None:
-        claim(r == dt.type(dst_nodata), "destination nodata when set")
+        claim(same(r, dt.type(dst_nodata)), "destination nodata when set (NaN included)")
     elif src_nodata is not None:
-        claim(r == dt.type(src_nodata), "else the source nodata")
+        claim(same(r, dt.type(src_nodata)), "else the source nodata (NaN included)")
     elif dt.kind == "f":
         claim(bool(np.isnan(r)), "else NaN for floating-point data")
     else:
@@ -49,10 +50,13 @@ def _lemma_fill_value(dst_nodata, src_nodata, dtype):
 lemma(
     "dask.fill_value_rule",
     ["C13"],
-    inputs=dict(dst_nodata=OneOf(None, 0, 7, -3), src_nodata=OneOf(None, 0, 5, -9), dtype=OneOf("uint8", "int8", "int16", "uint16", "int32", "float32", "float64")),
-    requires=[lambda dst_nodata, src_nodata, dtype: (not dtype.startswith("u")) or ((dst_nodata is None or dst_nodata >= 0) and (src_nodata is None or src_nodata >= 0))],
+    inputs=dict(dst_nodata=OneOf(None, 0, 7, -3, float("nan")), src_nodata=OneOf(None, 0, 5, -9, float("nan")), dtype=OneOf("uint8", "int8", "int16", "uint16", "int32", "float32", "float64")),
+    requires=[
+        lambda dst_nodata, src_nodata, dtype: (not dtype.startswith("u")) or ((dst_nodata is None or not dst_nodata < 0) and (src_nodata is None or not src_nodata < 0)),
+        lambda dst_nodata, src_nodata, dtype: dtype.startswith("float") or not any(isinstance(v, float) and v != v for v in (dst_nodata, src_nodata)),  # NaN nodata only makes sense for floating-point data
+    ],
     body=_lemma_fill_value,
-    note="EXHAUSTIVE over the decision structure (4 x 4 x 7 concrete combinations): numpy scalar construction is concrete code",
+    note="EXHAUSTIVE over the decision structure (5 x 5 x 7 concrete combinations incl. NaN nodata for floating-point data): numpy scalar construction is concrete code",
 )
 
 
